@@ -72,7 +72,11 @@ Bases == <<
   X_Mod(NoAttrs,
         <<It("def", X_TypeSemi(X_Attrs(<<X_AttrGroup(FALSE, <<X_AAs("a", X_EInt(NumInt(1))), X_AAs("b", X_EStr("s")), X_AAs("c", X_EId("d"))>>),
                                          X_AttrGroup(FALSE, <<X_AFn("e", <<>>), X_AFn("f", <<X_EInt(NumInt(1)), X_EStr("s"), X_EId("x")>>)>>),
-                                         X_AttrGroup(FALSE, <<>>)>>), "priv", "Q"))>>),
+                                         X_AttrGroup(FALSE, <<>>),
+                                         (* the same attribute twice in a row, two equal doc lines: nothing is merged *)
+                                         X_AttrGroup(FALSE, <<X_AId("p"), X_AId("p")>>),
+                                         X_AttrGroup(FALSE, <<X_AAs("doc", X_EStr(" same"))>>), X_AttrGroup(FALSE, <<X_AAs("doc", X_EStr(" same"))>>)>>),
+                             "priv", "Q"))>>),
   (* 9: generics hack and raw identifiers *)
   X_Mod(NoAttrs,
         <<It("use", X_Use(<<N1("r#mod"), N1("r#type")>>)),
